@@ -266,18 +266,26 @@ def insHost (kv : Str × List (Str × List (Str × Str))) :
 def skeleton (t : Table) : List (Str × List (Str × List (Str × Str))) :=
   (t.map fun kv => (kv.1, kv.2.map fun r => (r.path, r.targets.map fun tg => (tg.service, tg.url)))).foldr insHost []
 
-def grpcCfg : Fabio.Model.C03.Cfg :=
+/-- the routing configuration of the proxy under test (`harness/c16/call.go: callConfig`): 2 = matcher
+`iprefix`, host globbing disabled; otherwise the defaults (prefix matcher, globbing on) -/
+def grpcCfg (n : Nat) : Fabio.Model.C03.Cfg :=
   { globMatch := Fabio.Model.C03.globLib,
-    pathMatch := Fabio.Model.C03.pathMatch Fabio.Model.C03.globLib .pfx,
-    pick := fun r => r.targets.headD { service := [], tags := [], opts := [], url := [], fixedWeight := 0 } }
+    pathMatch := Fabio.Model.C03.pathMatch Fabio.Model.C03.globLib (if n == 2 then .iprefix else .pfx),
+    pick := fun r => r.targets.headD { service := [], tags := [], opts := [], url := [], fixedWeight := 0 },
+    globDisabled := n == 2 }
 
 /-- brute-force reference for the specification: the targets a call may be sent to are the targets of every
 route whose path is a prefix of the method path and whose host key is empty or matches the host (it does not
 use `Lookup`, its host order or its route order) -/
-def candidateURLs (t : Table) (host path : Str) : List Str :=
+def candidateURLs (n : Nat) (t : Table) (host path : Str) : List Str :=
   let nh := Fabio.Model.C03.normalizeHost host false
-  (t.filter fun kv => kv.1.isEmpty || Fabio.Model.C03.globLib (Fabio.Model.C03.normalizeHost kv.1 false) nh).flatMap fun kv =>
-    (kv.2.filter fun r => r.path.isPrefixOf path).flatMap fun r => r.targets.map (·.url)
+  let hostOK (k : Str) : Bool :=
+    if n == 2 then Fabio.Model.C03.normalizeHost k false == nh
+    else Fabio.Model.C03.globLib (Fabio.Model.C03.normalizeHost k false) nh
+  let pathOK (p : Str) : Bool :=
+    if n == 2 then (Fabio.lowerL p).isPrefixOf (Fabio.lowerL path) else p.isPrefixOf path
+  (t.filter fun kv => kv.1.isEmpty || hostOK kv.1).flatMap fun kv =>
+    (kv.2.filter fun r => pathOK r.path).flatMap fun r => r.targets.map (·.url)
 
 structure CallTrack where
   /-- backend index ↦ connection id of the last call that reached it (forgotten when the backend's URL is
@@ -295,6 +303,10 @@ structure CallTrack where
   model : List Json := []
   forwards : Nat := 0
   reused : Nat := 0
+  /-- at least two calls of one "par" step were forwarded: they were in flight together -/
+  par : Bool := false
+  /-- configuration of the proxy under test -/
+  cfg : Nat := 0
 
 def CallTrack.note (t : CallTrack) (cls : String) (agree spec : Bool) (tag : String) : CallTrack :=
   { t with agree := t.agree && agree, spec := t.spec && spec,
@@ -343,7 +355,7 @@ def relayAgrees (method : String) (sentMD : Spec.SMD) (mode : String) (ms : List
       && bsaw.method == s.bMethod && Spec.mdCarried s.bMD bsaw.md
       && drained == s.bEOF && (!drained || Spec.Wire.sameMsgs bsaw.msgs s.bGot)
 
-def callStep (t : CallTrack) (st o : Json) : CallTrack :=
+def callStep1 (t : CallTrack) (st o : Json) : CallTrack :=
   match getStrD st "op" with
   | "table" =>
     let defs := stepDefs st
@@ -390,12 +402,12 @@ def callStep (t : CallTrack) (st o : Json) : CallTrack :=
     let host := String.ofList hostL
     let entry := (getArrD o "oracle").find? fun e => getStrD e "h" == host
     -- the composed model: C03's Lookup on the model-built table, for the request the interceptor builds
-    let answer := Fabio.Model.C03.Lookup grpcCfg t.table { host := hostL, tls := false, path := s2l path }
+    let answer := Fabio.Model.C03.Lookup (grpcCfg t.cfg) t.table { host := hostL, tls := false, path := s2l path }
     let modelURLs : List Nat := match answer with
       | none => []
       | some (_, r, _) => sortNats (r.targets.filterMap fun tg => backendIdx tg.url)
     -- the specification's reference, on the implementation's own table
-    let cands := sortNats ((candidateURLs t.dump hostL (s2l path)).filterMap backendIdx)
+    let cands := sortNats ((candidateURLs t.cfg t.dump hostL (s2l path)).filterMap backendIdx)
     if !pathOK then
       let ok := saw.code == codeInternal && nhits == 0 && backend.isNone
       t.note "internal" (ok && ppOK) (nhits == 0) "internal-but-backend-contacted"
@@ -465,17 +477,34 @@ def callStep (t : CallTrack) (st o : Json) : CallTrack :=
           t.note "forward" (inSet && ppOK && relayOK) spec tag
   | _ => t.note "bad-step" false true "bad-step"
 
+/-- a step of a case; the calls of a "par" step ran concurrently and are judged one by one, each as if it had
+been alone (routing by the composed model, the relay model, the specification) -/
+def callStep (t : CallTrack) (st o : Json) : CallTrack :=
+  match getStrD st "op" with
+  | "par" =>
+    let subs := getArrD st "calls"
+    let os := getArrD o "calls"
+    if subs.length != os.length || getStrD o "op" != "par" then t.note "bad-step" false true "bad-step"
+    else
+      let f0 := t.forwards
+      let t := (subs.zip os).foldl (fun t (p : Json × Json) => callStep1 t p.1 p.2) t
+      -- a backend handler ran for a call that is none of this step's calls
+      let t := if (o.getObjValAs? Int "noroute").toOption == some (-1) then
+                 t.note "par" false false "backend-called-for-nobodys-call" else t
+      { t with par := t.par || t.forwards ≥ f0 + 2 }
+  | _ => callStep1 t st o
+
 def callH : Handler := fun inp impl => do
   let steps := getArrD inp "steps"
   let obs := getArrD impl "obs"
   if steps.length != obs.length then
     return ({ model := Json.null, agree := false, spec := true, nontrivial := false, tag := "harness-error" } : Verdict).toJson
-  let t := (steps.zip obs).foldl (fun t (p : Json × Json) => callStep t p.1 p.2) ({} : CallTrack)
+  let t := (steps.zip obs).foldl (fun t (p : Json × Json) => callStep t p.1 p.2) ({ cfg := getNatD inp "cfg" } : CallTrack)
   let cls := (["forward", "notfound", "internal"].filter t.classes.contains).foldl
     (fun a c => if a.isEmpty then c else a ++ "+" ++ c) ""
   -- classes of the configuration and of the pace of the calls (neither changes what the model expects)
   let slow := steps.any fun st => getNatD st "pause_ms" > 0 || getNatD ((getObj? st "script").getD (Json.mkObj [])) "delay_ms" > 0
-  let sfx := (if getNatD inp "cfg" > 0 then "+shortopts" else "") ++ (if slow then "+slow" else "")
+  let sfx := (if t.par then "+par" else "") ++ (if getNatD inp "cfg" == 1 then "+shortopts" else if getNatD inp "cfg" == 2 then "+iprefix-noglob" else "") ++ (if slow then "+slow" else "")
   let tag := if t.failTag.isEmpty then (if t.reused > 0 then cls ++ "+reuse" else cls) ++ sfx else t.failTag
   return ({ model := Json.arr t.model.toArray, agree := t.agree, spec := t.spec,
             nontrivial := t.forwards > 0, tag := tag } : Verdict).toJson
